@@ -60,13 +60,13 @@ theorem aescmac_message_other (c : Int) (hc : c ≠ 3) (msg : Bytes) : AescmacMa
 theorem aescmac_ComputeMAC_eq (m : Mac.FullMac) (raw : Bytes → Option Bytes) (h : ∀ x, raw x = some (m.raw x))
     (data : Bytes) :
     AescmacMac.ComputeMAC raw m.pre (macVariantCode m.variant) data = some (m.compute data) := by
-  simp only [AescmacMac.ComputeMAC, AescmacMac.ComputeMAC.opt_rawMAC, aescmac_message_eq, h, Option.bind_some,
+  simp only [AescmacMac.ComputeMAC, AescmacMac.ComputeMAC.v1, aescmac_message_eq, h, Option.bind_some,
     Mac.FullMac.compute]
 
 theorem aescmac_VerifyMAC_eq (m : Mac.FullMac) (rawVerify : Bytes → Bytes → Option Unit)
     (h : ∀ t x, rawVerify t x = if t = m.raw x then some () else none) (mac data : Bytes) :
     (AescmacMac.VerifyMAC rawVerify m.pre (macVariantCode m.variant) mac data).isSome = m.verify mac data := by
-  simp only [AescmacMac.VerifyMAC, AescmacMac.VerifyMAC.prefix', aescmac_message_eq, len_eq, Mac.FullMac.verify,
+  simp only [AescmacMac.VerifyMAC, AescmacMac.VerifyMAC.v1, aescmac_message_eq, len_eq, Mac.FullMac.verify,
     Int.ofNat_lt]
   by_cases h1 : mac.length < m.pre.length
   · rw [if_pos h1, if_pos h1]; rfl
@@ -92,13 +92,13 @@ theorem hmac_message_other (c : Int) (hc : c ≠ 3) (msg : Bytes) : HmacMac.mess
 theorem hmac_ComputeMAC_eq (m : Mac.FullMac) (raw : Bytes → Option Bytes) (h : ∀ x, raw x = some (m.raw x))
     (data : Bytes) :
     HmacMac.ComputeMAC raw m.pre (macVariantCode m.variant) data = some (m.compute data) := by
-  simp only [HmacMac.ComputeMAC, HmacMac.ComputeMAC.opt_rawMAC, hmac_message_eq, h, Option.bind_some,
+  simp only [HmacMac.ComputeMAC, HmacMac.ComputeMAC.v1, hmac_message_eq, h, Option.bind_some,
     Mac.FullMac.compute]
 
 theorem hmac_VerifyMAC_eq (m : Mac.FullMac) (rawVerify : Bytes → Bytes → Option Unit)
     (h : ∀ t x, rawVerify t x = if t = m.raw x then some () else none) (mac data : Bytes) :
     (HmacMac.VerifyMAC rawVerify m.pre (macVariantCode m.variant) mac data).isSome = m.verify mac data := by
-  simp only [HmacMac.VerifyMAC, HmacMac.VerifyMAC.prefix', hmac_message_eq, len_eq, Mac.FullMac.verify,
+  simp only [HmacMac.VerifyMAC, HmacMac.VerifyMAC.v1, hmac_message_eq, len_eq, Mac.FullMac.verify,
     Int.ofNat_lt]
   by_cases h1 : mac.length < m.pre.length
   · rw [if_pos h1, if_pos h1]; rfl
@@ -123,7 +123,7 @@ theorem macsubtle_ComputeMAC_eq (cmac : Bytes → Bytes) (t : Nat) (ht : t ≤ 1
 theorem macsubtle_VerifyMAC_eq (cmac : Bytes → Bytes) (t : Nat) (ht : t ≤ 16) (hc : ∀ x, (cmac x).length = 16)
     (mac data : Bytes) : (MacSubtle.VerifyMAC cmac t mac data).isSome ↔ mac = (cmac data).take t := by
   have e := slice_pre (cmac data) t (by rw [hc]; exact ht)
-  simp only [MacSubtle.VerifyMAC, MacSubtle.VerifyMAC.computed, Int.ofNat_eq_natCast, ctCompare, e]
+  simp only [MacSubtle.VerifyMAC, MacSubtle.VerifyMAC.v1, Int.ofNat_eq_natCast, ctCompare, e]
   by_cases h : mac = (cmac data).take t
   · simp [h]
   · simp [h]
